@@ -364,6 +364,34 @@ def shard_generated(ctx, arg):
                     ctx.sig(which, *sig_of(ref))
             if idx == 0 and k < 2 and nm == "m0":
                 ctx.sample({"instr": ref.instr[:25], "leaders": sorted(ref.leaders), "terminators": {str(a): sorted(b) if b is not None else None for a, b in ref.terminators.items()}, "tries": ref.tries})
+        # a method whose body was replaced through EncodedMethod.set_instructions() (the code-patching API) by the well-formed body of another
+        # method (neither has a try table, so the code item stays consistent) and which is analysed again: it is a method like any other
+        if which in ("C10", "C11") and k % 2 == 0:
+            from androguard.core.analysis.analysis import MethodAnalysis
+            rng2 = ctx.rng("blocks-replaced-body", idx, k)
+            ms2 = [cfg.gen_method(rng2, allow_new=False, max_tries=0) for _ in range(2)]
+            try:
+                data2, w2, names2 = cfg.make_dex(ms2)
+                dx2 = dex.DEX(data2)
+                an2 = Analysis(dx2)
+                em_a = dx2.get_encoded_methods_class_method(cfg.CLS, names2[0])
+                em_b = dx2.get_encoded_methods_class_method(cfg.CLS, names2[1])
+                an2.get_method(em_a).get_basic_blocks().get()     # the old body was looked at
+                for o_ in (0, 2, 4):
+                    em_a.get_code().get_bc().get_ins_off(o_)
+                em_a.set_instructions(list(em_b.get_instructions()))
+                ma2 = MethodAnalysis(dx2, em_a)
+                units = w2.code_units[(cfg.CLS, names2[1], "V", ())][1]
+                ref = ref_cfg(units, [])
+                ref.tries_in_file_order = []
+                ctx.ev()
+                ctx.count("methods_analysed_again_after_their_body_was_replaced")
+                wit = {"units": ["%04x" % u for u in units][:250], "tries": [], "features": ms2[1].features,
+                       "history": "analysed, body replaced by set_instructions() with these units, analysed again"}
+                check_method(ctx, which, dex, dx2, ma2, em_a, ref, wit)
+            except Exception as e:
+                ctx.violation("replaced-body-analysis-raises", "analysing a method again after set_instructions() raises", {"exc": exc_str(e)})
+
 
 
 def shard_shipped(ctx, arg):
@@ -526,4 +554,6 @@ def run(ctx, which):
         args += [["shard_start_address", [which, i, 60 if ctx.quick else 3000]] for i in range(4)]
     ctx.run_shards(MOD, "dispatch", args, timeout=3000)
     ctx.require_counter("shipped_methods", 100)
+    if which in ("C10", "C11"):
+        ctx.require_counter("methods_analysed_again_after_their_body_was_replaced", 50)
     ctx.min_distinct = 10
